@@ -233,3 +233,21 @@ def compare_block(ctx, rule, construct, where, what, stmts, refs, track, names=N
     """compare a block of statements (not a whole function) by the final values of the `track`ed locals, its stores and calls"""
     paths = run_paths(list(stmts), inline=inline)
     return compare(ctx, rule, construct, where, what, paths, refs, names=names, hook=hook, fact=fact, why=why, track=tuple(track))
+
+
+def class_fold(var, cls):
+    """fold(node) for run_paths: pins `isinstance(var, C)` / `type(var) is C` tests to the class named `cls`
+    (`var`: the variable's text, or a collection of texts that denote the same object after substitution)"""
+    vars_ = {var} if isinstance(var, str) else set(var)
+
+    def fold(node):
+        if isinstance(node, ast.Call) and dotted(node.func) == "isinstance" and len(node.args) == 2 and unparse(node.args[0]) in vars_:
+            classes = node.args[1].elts if isinstance(node.args[1], ast.Tuple) else [node.args[1]]
+            names = [dotted(c) for c in classes]
+            if all(n is not None for n in names):
+                return ast.Constant(value=any(n.split(".")[-1] == cls.split(".")[-1] for n in names))
+        if isinstance(node, ast.Compare) and len(node.ops) == 1 and isinstance(node.ops[0], (ast.Is, ast.Eq)) and \
+                unparse(node.left) in {f"type({v})" for v in vars_} and dotted(node.comparators[0]) is not None:
+            return ast.Constant(value=dotted(node.comparators[0]).split(".")[-1] == cls.split(".")[-1])
+        return None
+    return fold
